@@ -918,7 +918,7 @@ int write_msa_msf(struct msa* msa,char* outfile)
                 max_name_len = MACRO_MAX(max_name_len, (int)strnlen( msa->sequences[i]->name,MSA_NAME_LEN));
         }
 
-        aln_len = msa->sequences[0]->len;
+        aln_len = msa->alnlen;
         /* for (j = 0; j <= msa->sequences[0]->len;j++){ */
         /*         aln_len+=  msa->sequences[0]->gaps[j]; */
         /* } */
@@ -992,12 +992,12 @@ int write_msa_msf(struct msa* msa,char* outfile)
                 RUN(tlfilename(outfile, &basename));
         }
 
-        written = snprintf(ol->line, line_length," %s  MSF: %d  Type: %c  %s  Check: %d  ..", outfile == NULL ? "stdout" :   basename,aln_len, msa->L == ALPHA_defPROTEIN ? 'P' : 'N', date, GCGMultchecksum(msa));
+        written = snprintf(ol->line, line_length," %s  MSF: %d  Type: %c  %s  Check: %d  ..", outfile == NULL ? "stdout" :   basename,aln_len, msa->L == ALPHA_defPROTEIN ? 'P' : 'N', date, GCGMultchecksum(msa, aln_len));
 
         if(written >= line_length){
                 MREALLOC(lb->lines[lb->num_line]->line,sizeof(char) * (written+1));
                 ol = lb->lines[lb->num_line];
-                written = snprintf(ol->line, written+1," %s  MSF: %d  Type: %c  %s  Check: %d  ..", outfile == NULL ? "stdout" : basename,aln_len, msa->L == ALPHA_defPROTEIN ? 'P' : 'N', date, GCGMultchecksum(msa));
+                written = snprintf(ol->line, written+1," %s  MSF: %d  Type: %c  %s  Check: %d  ..", outfile == NULL ? "stdout" : basename,aln_len, msa->L == ALPHA_defPROTEIN ? 'P' : 'N', date, GCGMultchecksum(msa, aln_len));
 
         }
 
@@ -1030,7 +1030,7 @@ int write_msa_msf(struct msa* msa,char* outfile)
                                    max_name_len,max_name_len,
                                    msa->sequences[i]->name ,
                                    aln_len,
-                                   GCGchecksum(msa->sequences[i]->seq, msa->sequences[i]->len),
+                                   GCGchecksum(msa->sequences[i]->seq, aln_len),
                                    1.0);
                 if(written >= line_length){
                         MREALLOC(lb->lines[lb->num_line]->line,sizeof(char) * (written+1));
@@ -1039,7 +1039,7 @@ int write_msa_msf(struct msa* msa,char* outfile)
                                            max_name_len,max_name_len,
                                            msa->sequences[i]->name ,
                                            aln_len,
-                                           GCGchecksum(msa->sequences[i]->seq, msa->sequences[i]->len),
+                                           GCGchecksum(msa->sequences[i]->seq, aln_len),
                                            1.0);
                 }
                 ol->block = -1;
